@@ -117,10 +117,12 @@ def write_v3(tmap, chunks, blocks, cpu_info=None, filler1=b'', filler2=b'', gaps
             s = len(out)
             out += rb
             layout.append(('record', s, len(out)))
-    for bi, (kind, payload) in enumerate(blocks):
+    for bi, blk in enumerate(blocks):
+        kind, payload = blk[0], blk[1]
+        tag = blk[2] if len(blk) > 2 and blk[2] else TAGS[kind]       # (an unknown block may carry any tag no section uses)
         s = len(out)
         last = bi == len(blocks) - 1
-        out += _block(TAGS[kind], payload, pad_to8=(pad_last or not last))
+        out += _block(tag, payload, pad_to8=(pad_last or not last))
         layout.append(('block:' + kind, s, len(out)))
     return bytes(out), layout
 
